@@ -129,6 +129,8 @@ def run(tier, seed):
                     raise tlc.TLCError('vacuous: no Force edge in the graph')
                 reuse = {(cv, fo): ExtrapolationGrid(getattr(SliceGrouping, gname), getattr(SliceVersion, sname), getattr(SliceContainerVersion, cv), force_balanced_refinement_tree=fo)
                          for cv in ('ROMBERG_DEFAULT', 'SIMPSON_ROMBERG') for fo in (False, True)}
+                aliased = {(cv, fo): (ExtrapolationGrid(getattr(SliceGrouping, gname), getattr(SliceVersion, sname), getattr(SliceContainerVersion, cv), force_balanced_refinement_tree=fo), [], [])
+                           for cv in ('ROMBERG_DEFAULT', 'SIMPSON_ROMBERG') for fo in (False, True)}
                 glob = {dc: GlobalRombergGrid([0.0], [1.0], do_cache=dc, slice_grouping=getattr(SliceGrouping, gname), slice_version=getattr(SliceVersion, sname)) for dc in (True, False)}
                 traces = []
                 order = sorted(g.states, key=lambda s: sorted(g.states[s]['pts']))
@@ -208,8 +210,18 @@ def run(tier, seed):
                                                            weights_used=used, weights=list(map(float, w))),
                                                       what='re-used ExtrapolationGrid on %s: integrate(1)=%r integrate(x)=%r do not agree with the weights of the current grid (sum %r)' % (ctx, i1, ix, float(np.sum(w))))
                                     return eg.grid, w
+                                def caller_lists(cv=cv, fo=fo):
+                                    # the caller keeps ONE pair of list objects, rewrites them in place for every grid and hands the same objects
+                                    # over again (what the adaptive strategies do with their per-dimension arrays): the weights must be those of the
+                                    # lists' current content
+                                    eg, cg, cl = aliased[(cv, fo)]
+                                    cg[:] = list(grid)
+                                    cl[:] = list(levels)
+                                    eg.set_grid(cg, cl)
+                                    return list(eg.grid), eg.get_weights()
                                 weights_event('ExtrapolationGrid:fresh', fo, cv, fresh)
                                 weights_event('ExtrapolationGrid:reused', fo, cv, reused)
+                                weights_event('ExtrapolationGrid:caller-lists', fo, cv, caller_lists)
                         for dc in (True, False):
                             def viaglobal(dc=dc):
                                 gr = glob[dc]
